@@ -1,10 +1,13 @@
 import CJ.Drv.Loop
 import CJ.Drv.ConnHandler
 import CJ.Drv.ConnStats
-/-! Driver for C03: the connection-handler model (`conn|…` lines) and its statistics transitions (`connstats|…`). -/
+import CJ.Drv.ReloadEnv
+/-! Driver for C03: the connection-handler model (`conn|…` lines) and its statistics transitions (`connstats|…`),
+the reload histories before a connection (`reloadenv|…`). -/
 open CJ.Drv
 
 def main : IO Unit := runDriver fun
   | "conn" :: args => ConnHandler.handle args
   | "connstats" :: args => ConnStats.handle args
+  | "reloadenv" :: args => ReloadEnv.handle args
   | _ => none
